@@ -864,7 +864,7 @@ class C18(Check):
                     raise RuntimeError(f"{self.ident}: driver rejected case {ln[:300]} -> {out[:100]}")
                 r = unsx(out)
                 need = None
-                for pr in (r[3], r[4]):
+                for pr in (r[5], r[6]):
                     if pr[0] == 2 and pr[1][:1] == b"?":
                         need = un_atom(unsx(pr[1][1:].decode("latin-1")))
                         break
@@ -888,7 +888,7 @@ class C18(Check):
         return bool(fi)
 
     def is_d14b(self, case, o, m, fi, rest):
-        cur, ref, wanted = rest[0], rest[1], rest[2]
+        cur, ref, wanted = rest[2], rest[3], rest[4]
         if self.canon(o) != m or cur != ref or set(fi) != {"value_equals_documented_semantics"}:
             return False
         diff = [(x, env) for x, w, env in zip(o[0], wanted, UNIVERSES[case["u"]]) if x != w]
@@ -905,7 +905,7 @@ class C18(Check):
             return False
         if not fi or self.canon(o) != m:
             return False          # the model of the current code must reproduce the behaviour exactly
-        cur, ref, wanted = rest[0], rest[1], rest[2]
+        cur, ref, wanted = rest[2], rest[3], rest[4]
         if entry["id"] == "D14b":
             return self.is_d14b(case, o, m, fi, rest)
         if entry["id"] == "D14c":
